@@ -128,6 +128,27 @@ MFRONT_SRC = """@Parser MaterialLaw;
 """
 
 
+def split_targets(toks):
+    """(tokens before the first specific target, sorted list of target blocks, tokens after): std::map prints the targets by
+    name, the model keeps them in order of arrival"""
+    idx = [k for k, x in enumerate(toks) if x == ("y", "target")]
+    if not idx:
+        return toks, [], []
+    blocks = []
+    for a, b in zip(idx, idx[1:] + [len(toks) - 2]):
+        blocks.append(tuple(toks[a:b]))
+    return toks[:idx[0]], sorted(blocks), toks[len(toks) - 2:]
+
+
+def status(lines):
+    for l in lines:
+        if l.startswith("ERR"):
+            return "ERR"
+        if l.startswith("OK"):
+            return "OK"
+    return ""
+
+
 def lib_names(text):
     return set(re.findall(r'library\s*:\s*\{\s*name\s*:\s*"([^"]*)"', text))
 
@@ -202,7 +223,7 @@ def main(c):
               "libraries of /repo/_build for everything but TargetsDescription.cxx, LibraryDescription.cxx, SpecificTargetDescription.cxx, "
               "CompiledTargetDescriptionBase.cxx (compiled from the working tree); the real CxxTokenizer turns bytes into tokens")
     ncases = c.pick(150, 1500)
-    ntrunc = c.pick(6, 40)
+    ntrunc = c.pick(2, 20)
     script, plan = [], []
     for i in range(ncases):
         a, b, d = gen_registry(c.rng), gen_registry(c.rng), gen_registry(c.rng)
@@ -210,7 +231,7 @@ def main(c):
         cmds = ["NEWEMPTY D", "MERGE D A 1", "DUMP D", "MERGE D B 1", "DUMP D", "MERGE D B 1", "DUMP D", "TOKENS D", "READ E D", "DUMP E",
                 "NEWEMPTY F", "MERGE F E 0", "MERGE F C 1", "DUMP F"]
         if i < ntrunc:
-            cmds.append("TRUNC D")
+            cmds.append("TRUNC D %d" % (1 if i == 0 else 7))    # every byte of the first registry, every 5th of the others
         script += cmds
         plan.append((a, b, d, len(cmds)))
     # identity conflicts: the merge must raise in both
@@ -247,9 +268,9 @@ def main(c):
         mseq = Mo[pos:pos + n]
         pos += n
         c.count(1, ("case", i), bool(a["libs"] or b["libs"]))
-        if any(l and l[0].startswith("ERR") for (_, l) in seq) or any(l and l[0].startswith("ERR") for (_, l) in mseq):
-            rs = [(cm, l[0]) for (cm, l) in seq if l and l[0].startswith(("ERR", "OK"))]
-            ms = [(cm, l[0][:3]) for (cm, l) in mseq if l and l[0].startswith(("ERR", "OK"))]
+        if any(status(l) == "ERR" for (_, l) in seq) or any(status(l) == "ERR" for (_, l) in mseq):
+            rs = [(cm, status(l)) for (cm, l) in seq if status(l)]
+            ms = [(cm, status(l)) for (cm, l) in mseq if status(l)]
             rep("unexpected-error", i, "a merge / read of well-formed registries raised: code %s, model %s" % (rs, ms), {"A": a, "B": b, "C": d})
             continue
         dumps = [parse_dump(l) for (cm, l) in seq if cm.startswith("DUMP")]
@@ -274,19 +295,20 @@ def main(c):
                 break
         rt = norm_tokens([l for (cm, l) in seq if cm.startswith("TOKENS")][0], True)
         mt = norm_tokens([l for (cm, l) in mseq if cm.startswith("TOKENS")][0], False)
-        if rt != mt:
+        if split_targets(rt) != split_targets(mt):
             j = next((k for k in range(min(len(rt), len(mt))) if rt[k] != mt[k]), min(len(rt), len(mt)))
             rep("correspondence-print", i, "operator<< and the model printer differ at token %d: code %s, model %s" % (j, rt[j:j + 4], mt[j:j + 4]),
                 {"registry": dAB, "code_tokens": rt, "model_tokens": mt})
         for (cm, l) in seq:
             if cm.startswith("TRUNC"):
                 _, n_, st = l[0].split()
+                last_ok = st.endswith("O")
                 ml = [x for (cm2, x) in mseq if cm2.startswith("TRUNC")][0][0].split()[2]
                 crashes += st.count("C")
                 c.count(len(st), ("trunc", i), True)
                 # only what follows the last token (a newline) may be cut
                 full = st.rstrip("O")
-                if "O" in full or "L" in st or len(st) - len(full) > 2 or "O" in ml[:-1] or ml[-1] != "O":
+                if "O" in full or "L" in st or not last_ok or len(st) - len(full) > 2 or "O" in ml[:-1] or ml[-1] != "O":
                     k = next((k for k, ch in enumerate(st) if ch in "OL"), -1)
                     rep("truncation-accepted", i, "the printed registry cut after byte %d of %s is accepted by the reader (status string %s...; "
                         "model on token prefixes %s)" % (k, n_, st[:60], ml), {"registry": dAB, "status": st})
@@ -296,8 +318,8 @@ def main(c):
         seq, mseq = R[pos:pos + 3], Mo[pos:pos + 3]
         pos += 3
         c.count(1, ("conflict", j), True)
-        rs = [l[0][:3] if l else "" for (_, l) in seq]
-        ms = [l[0][:3] if l else "" for (_, l) in mseq]
+        rs = [status(l) for (_, l) in seq]
+        ms = [status(l) for (_, l) in mseq]
         if rs != ms:
             rep("correspondence-conflict", j, "library identity conflict: code answers %s, model %s" % (rs, ms), {"A": a, "B": b})
     if crashes:
